@@ -16,6 +16,7 @@ SEM = {
     'C08': dict(viol={'C08'}, phases={'ctx', 'err'}, ctx_fields={'rekey', 'close', 'aclose', 'sender'}, ctx_kinds={'self'}),
     'C09': dict(viol={'C09'}, phases={'ctx', 'err'}, ctx_fields={'fee'}, ctx_kinds={'self'}),
     'C10': dict(viol={'C10'}, phases={'ctx', 'err'}, ctx_fields=None, ctx_kinds={'at', 'abs', 'rel'}),
+    'C11': dict(viol={'C11'}, phases={'ast', 'err'}, ctx_fields=None, ctx_kinds=None),
     'C02': dict(viol={'C02'}, phases={'paths', 'err'}, ctx_fields=None, ctx_kinds=None),
     'C04': dict(viol={'C04'}, phases={'cfg', 'func', 'err'}, ctx_fields=None, ctx_kinds=None),
     'C05': dict(viol={'C05'}, phases={'subs', 'func', 'err'}, ctx_fields=None, ctx_kinds=None),
@@ -67,6 +68,9 @@ def make_items(cx, spec, nprog, nenv, streams=('corpus', 'fragment', 'shapes')):
         for i in idxs[:nd]:
             src, tags = gen.direct(cx.seed, i)
             items.append({'name': f'direct/{cx.seed}/{i}', 'src': src, 'nenv': max(40, nenv // 2), 'seed': cx.seed, 'stream': 'direct'})
+    if 'straight' in streams:
+        for i in range(nprog * 3):
+            items.append({'name': f'straight/{cx.seed}/{i}', 'src': gen.straightline(cx.seed, i), 'nenv': 0, 'seed': cx.seed, 'stream': 'straight'})
     if 'layout' in streams:
         for i in range(nprog):
             items.append({'name': f'layout/{cx.seed}/{i}', 'src': gen.layout(cx.seed, i), 'nenv': nenv // 3, 'seed': cx.seed, 'stream': 'layout'})
@@ -146,7 +150,7 @@ def semantic_check(pid):
         if replay is not None:
             return do_replay(cx, pid, spec, replay)
         nprog, nenv = volumes(cx, 90, 100)
-        streams = ('corpus', 'fragment', 'shapes', 'direct') + (('layout',) if pid in ('C04', 'C05') else ())
+        streams = ('corpus', 'fragment', 'shapes', 'direct') + (('layout',) if pid in ('C04', 'C05') else ()) + (('straight',) if pid == 'C11' else ())
         items = make_items(cx, spec, nprog, nenv, streams)
         results = engine.run_items(items)
         src_of = {it['name']: it['src'] for it in items}
